@@ -14,7 +14,9 @@ import math
 import sympy as sp
 
 from ..core import AnchorMissing, Check, Undecided, calls_in, dotted, kwarg, own_nodes, src, walk_guarded
+from ..flow import CFG
 from ..hydro import n
+from ..nf import Ctx, eqx, has, parse_pattern, same
 from ..terms import Extractor, SUM, is_zero
 
 LEVEL = "other"
@@ -31,20 +33,27 @@ def r20_1(chk: Check):
         fneg = S.func(f"{IN}:{cls}._integrandNegativeReal")
         fim = S.func(f"{IN}:{cls}._integrandNegativeImaginary")
         chk.touch(fpos.name, fneg.name, fim.name)
-        pos = ex.single(fpos)
+
+        def single(f):
+            # the integrand as a term in (x, y): its two parameters are bound by position, whatever they are called
+            prm = [p_ for p_ in f.params() if p_ not in ("self", "cls")]
+            if len(prm) != 2:
+                raise AnchorMissing(f"{f.qual}: expected the parameters (x, y)")
+            return ex.single(f, {prm[0]: x, prm[1]: y})
+        pos = single(fpos)
         overall = 1 if nm == "Jb" else -1
         want = overall * y**2 * sp.log(1 + sgn * sp.exp(-sp.sqrt(y**2 + x)))
         ok, how = is_zero(pos - want, chk.seed)
         chk.ob("R20.1", fpos.where(), f"{nm} integrand (x + y^2 >= 0) == {'+' if overall > 0 else '-'} y^2 log(1 {'+' if sgn > 0 else '-'} exp(-sqrt(y^2 + x)))",
                ok, how, key=f"positive|{nm}", how=how)
-        neg = ex.single(fneg).subs(sp.sqrt(-x - y**2), a)
+        neg = single(fneg).subs(sp.sqrt(-x - y**2), a)
         # modulus: exp(2 * neg / (overall * y^2)) == |1 + sgn e^{-ia}|^2 = 2 + 2 sgn cos(a)
         inner = sp.exp(2 * neg / (overall * y**2))
         mod2 = 2 + 2 * sgn * sp.cos(a)
         ok, how = is_zero(sp.simplify(sp.expand_trig(sp.simplify(inner).rewrite(sp.cos)) - mod2), chk.seed, ranges={a: (0, 3)})
         chk.ob("R20.1", fneg.where(), f"{nm} real integrand (x + y^2 < 0, sqrt = i a): the log argument is |1 {'+' if sgn > 0 else '-'} e^(-ia)| "
                f"= 2|{'cos' if sgn > 0 else 'sin'}(a/2)|", ok, how, key=f"modulus|{nm}", how=how)
-        im = ex.single(fim).subs(sp.sqrt(-x - y**2), a)
+        im = single(fim).subs(sp.sqrt(-x - y**2), a)
         # phase: tan(im / y^2) == overall * Im/Re of (1 + sgn e^{-ia})  -> for Jb: cot(a/2); for Jf (overall -): tan(a/2)
         true_tan = overall * (-sgn * sp.sin(a)) / (1 + sgn * sp.cos(a))
         got_tan = sp.tan(im / y**2)
@@ -67,96 +76,265 @@ def r20_1(chk: Check):
     chk.floor("R20.1", 8)
 
 
-def _wrapper_structure(f_impl) -> dict:
-    """structure of the nested wrapper(xWrapper): per branch the list of (integrand, lower, upper) for real and imaginary part"""
-    wr = [x for x in ast.walk(f_impl.node) if isinstance(x, ast.FunctionDef) and x.name == "wrapper"]
-    if len(wr) != 1:
-        raise AnchorMissing("wrapper not found")
-    out = {}
-    for guards, st in walk_guarded(wr[0]):
-        if isinstance(st, ast.Assign) and n(st.targets[0]) in ("resReal", "resImag"):
-            br = None
-            for t, pol in guards:
-                if not isinstance(t, tuple) and n(t).replace(" ", "") == "xWrapper>=0":
-                    br = "x>=0" if pol else "x<0"
-            calls = []
-            for c in ast.walk(st.value):
-                if isinstance(c, ast.Call) and n(c.func) == "_integrator":
-                    lam = c.args[0]
-                    callee = None
-                    for cc in ast.walk(lam):
-                        if isinstance(cc, ast.Call) and "_integrand" in n(cc.func):
-                            callee = n(cc.func)
-                            argn = [n(a_) for a_ in cc.args]
-                    calls.append((callee, tuple(argn), n(c.args[1]), n(c.args[2])))
-            out[(br, n(st.targets[0]))] = sorted(calls) if calls else n(st.value)
-    rets = [r for r in ast.walk(wr[0]) if isinstance(r, ast.Return)]
-    out["return"] = n(rets[0].value) if rets else None
+KEEP = {"_integrator", "_integrandPositiveReal", "_integrandNegativeReal", "_integrandNegativeImaginary"}
+
+
+def _only_via(g: CFG, t, pol: bool, a) -> bool:
+    """statement `a` is executed only after test `t` came out as `pol` (if/else arm, or fall-through after a guard clause)"""
+    return g.must_pass(CFG.ENTRY, a, lambda q: q is t) and not g.reaches(g.branch(t, not pol), a, avoid=lambda q: q is t)
+
+
+def _sum_terms(e: ast.AST) -> list:
+    if isinstance(e, ast.BinOp) and isinstance(e.op, ast.Add):
+        return _sum_terms(e.left) + _sum_terms(e.right)
+    if isinstance(e, ast.UnaryOp) and isinstance(e.op, ast.UAdd):
+        return _sum_terms(e.operand)
+    return [e]
+
+
+def _is_1j(e: ast.AST) -> bool:
+    return isinstance(e, ast.Constant) and isinstance(e.value, complex) and e.value == 1j
+
+
+def _complex_parts(v: ast.AST, cx: Ctx):
+    """(real part, imaginary part) of `complex(R + 1j * I)` / `complex(R, I)`, temporaries looked through"""
+    v = cx.resolve(v, keep_calls=KEEP)
+    if not (isinstance(v, ast.Call) and dotted(v.func) == "complex" and not v.keywords):
+        return None
+    if len(v.args) == 2:
+        return v.args[0], v.args[1]
+    if len(v.args) != 1:
+        return None
+    re_, im_ = [], []
+    for t in _sum_terms(v.args[0]):
+        if isinstance(t, ast.BinOp) and isinstance(t.op, ast.Mult) and (_is_1j(t.left) or _is_1j(t.right)):
+            im_.append(t.right if _is_1j(t.left) else t.left)
+        else:
+            re_.append(t)
+    return (re_[0], im_[0]) if len(re_) == 1 and len(im_) == 1 else None
+
+
+def _wrapper_structure(S, f_impl, cls: str) -> dict:
+    """structure of the nested per-point function of _functionImplementation (the one that calls _integrator), by role:
+    (branch, part) -> sorted list of (integrand, lower limit, upper limit) when the part is a plain sum of _integrator(...) calls,
+    else the text of the value.  branch in {x>=0, x<0, None}, part in {resReal, resImag} = real / imaginary part of the returned complex"""
+    wrs = [f for f in S.modules[f_impl.module].funcs.values() if f.parent is f_impl and calls_in(f.node, "_integrator")]
+    if len(wrs) != 1:
+        raise AnchorMissing(f"{f_impl.qual}: the nested per-point function calling _integrator not found")
+    wr = wrs[0]
+    prm = [a_.arg for a_ in wr.node.args.args]
+    if len(prm) != 1:
+        raise AnchorMissing(f"{wr.qual}: expected one parameter")
+    XW = prm[0]
+    cx = Ctx(S, wr)
+    g = CFG(wr.node)
+    fint = S.func(f"{IN}:_integrator")
+    ip = fint.params()
+    sense = {}
+    for t in g.nodes:
+        if g.kind.get(t) == "test":
+            if eqx(t, f"{XW} >= 0", cx):
+                sense[t] = True
+            elif eqx(t, f"{XW} < 0", cx):
+                sense[t] = False
+
+    def branch(node):
+        for t, s_ in sense.items():
+            if _only_via(g, t, True, node):
+                return "x>=0" if s_ else "x<0"
+            if _only_via(g, t, False, node):
+                return "x<0" if s_ else "x>=0"
+        return None
+
+    def limit(e) -> str:
+        if e is None:
+            return "?"
+        if eqx(e, "0.0", cx):
+            return "0"
+        if eqx(e, "np.inf", cx) or eqx(e, "math.inf", cx):
+            return "inf"
+        if eqx(e, f"np.sqrt(np.abs({XW}))", cx) or eqx(e, f"np.sqrt(abs({XW}))", cx):
+            return "sqrt|x|"
+        return n(e)
+
+    def describe(e):
+        r = cx.resolve(e, keep_calls=KEEP)
+        calls = []
+        for t in _sum_terms(r):
+            if not (isinstance(t, ast.Call) and dotted(t.func) == "_integrator" and len(ip) == 3):
+                return "0" if eqx(r, "0.0") else n(r)
+            f_, a_, b_ = (kwarg(t, ip[i], i) for i in range(3))
+            lam = cx.resolve(f_, keep_calls=KEEP) if f_ is not None else None
+            callee = "?"
+            if isinstance(lam, ast.Lambda) and len(lam.args.args) == 1 and isinstance(lam.body, ast.Call):
+                Y = lam.args.args[0].arg
+                d = dotted(lam.body.func) or ""
+                own = S.modules[f_impl.module].funcs.get(d)
+                if own is not None and d.split(".")[0] == cls:
+                    ps_ = [p_ for p_ in own.params() if p_ not in ("self", "cls")]
+                    if len(ps_) == 2 and eqx(kwarg(lam.body, ps_[0], 0), XW, cx) and eqx(kwarg(lam.body, ps_[1], 1), Y) and Y != XW:
+                        callee = d.split(".")[-1]
+                elif d:
+                    callee = "foreign:" + d
+            calls.append((callee, limit(a_), limit(b_)))
+        return sorted(calls)
+
+    out: dict = {"__where__": wr}
+    rets = [r for r in own_nodes(wr.node) if isinstance(r, ast.Return)]
+    if not rets:
+        raise AnchorMissing(f"{wr.qual}: no return")
+    ok_ret = True
+    for r in rets:
+        parts = _complex_parts(r.value, cx) if r.value is not None else None
+        if parts is None:
+            ok_ret = False
+            continue
+        for label, e in zip(("resReal", "resImag"), parts):
+            if isinstance(e, ast.Name) and e.id != XW:
+                for d in g.reaching_defs(r, e.id):
+                    if d is CFG.ENTRY or not isinstance(d, ast.Assign) or len(d.targets) != 1:
+                        out.setdefault((None, label), []).append("undefined on some path")
+                        continue
+                    v = d.value
+                    t0 = d.targets[0]
+                    if isinstance(t0, ast.Tuple):
+                        idx = [i for i, x in enumerate(t0.elts) if isinstance(x, ast.Name) and x.id == e.id]
+                        v = v.elts[idx[0]] if isinstance(v, ast.Tuple) and len(v.elts) == len(t0.elts) and len(idx) == 1 else None
+                    out.setdefault((branch(d), label), []).append(describe(v) if v is not None else "unanalysable")
+            else:
+                out.setdefault((branch(r), label), []).append(describe(e))
+    out["return"] = ok_ret
     return out
 
 
 def r20_2(chk: Check):
     S = chk.src
-    structs = {}
     for cls in ("JbIntegral", "JfIntegral"):
         fi = S.func(f"{IN}:{cls}._functionImplementation")
         chk.touch(fi.name)
-        st = _wrapper_structure(fi)
-        structs[cls] = st
-        sq = "np.sqrt(np.abs(xWrapper))"
+        st = _wrapper_structure(S, fi, cls)
         want = {
-            ("x>=0", "resReal"): [(f"{cls}._integrandPositiveReal", ("xWrapper", "y"), "0.0", "np.inf")],
-            ("x>=0", "resImag"): "0.0",
-            ("x<0", "resReal"): sorted([(f"{cls}._integrandNegativeReal", ("xWrapper", "y"), "0.0", sq),
-                                        (f"{cls}._integrandPositiveReal", ("xWrapper", "y"), sq, "np.inf")]),
-            ("x<0", "resImag"): [(f"{cls}._integrandNegativeImaginary", ("xWrapper", "y"), "0.0", sq)],
+            ("x>=0", "resReal"): ([("_integrandPositiveReal", "0", "inf")], "its own _integrandPositiveReal on [0.0, np.inf]"),
+            ("x>=0", "resImag"): ("0", "0.0"),
+            ("x<0", "resReal"): (sorted([("_integrandNegativeReal", "0", "sqrt|x|"), ("_integrandPositiveReal", "sqrt|x|", "inf")]),
+                                 "its own _integrandNegativeReal on [0.0, np.sqrt(np.abs(x))] plus _integrandPositiveReal on [np.sqrt(np.abs(x)), np.inf]"),
+            ("x<0", "resImag"): ([("_integrandNegativeImaginary", "0", "sqrt|x|")], "its own _integrandNegativeImaginary on [0.0, np.sqrt(np.abs(x))]"),
         }
-        for k, v in want.items():
-            chk.ob("R20.2", fi.where(), f"{cls}: {k[1]} for {k[0]} integrates {'its own ' if isinstance(v, list) else ''}"
-                   f"{', '.join(c[0].split('.')[-1] + ' on [' + c[2] + ', ' + c[3] + ']' for c in v) if isinstance(v, list) else v}",
-                   st.get(k) == v, str(st.get(k))[:200], key=f"structure|{cls}|{k[0]}|{k[1]}")
-        chk.ob("R20.2", fi.where(), f"{cls}: wrapper returns real + i*imag", (st.get("return") or "").replace(" ", "") == "complex(resReal+1j*resImag)",
-               str(st.get("return")), key=f"return|{cls}")
+        for k, (v, txt) in want.items():
+            got = st.get(k)
+            chk.ob("R20.2", fi.where(), f"{cls}: {k[1]} for {k[0]} integrates {txt}", got == [v] and (None, k[1]) not in st,
+                   str(got if got is not None else st.get((None, k[1])))[:200], key=f"structure|{cls}|{k[0]}|{k[1]}")
+        chk.ob("R20.2", fi.where(), f"{cls}: wrapper returns real + i*imag", st.get("return") is True, key=f"return|{cls}")
         ini = S.func(f"{IN}:{cls}.__init__")
         a = ini.node.args
         names = [x.arg for x in a.args]
-        dfl = dict(zip(names[len(names) - len(a.defaults):], [n(d_) for d_ in a.defaults]))
-        chk.ob("R20.2", ini.where(), f"{cls} declares two return values (real, imaginary)", dfl.get("returnValueCount") == "2", str(dfl), key=f"rvc|{cls}")
+        dfl = dict(zip(names[len(names) - len(a.defaults):], a.defaults))
+        chk.ob("R20.2", ini.where(), f"{cls} declares two return values (real, imaginary)", eqx(dfl.get("returnValueCount"), "2"),
+               str({k: n(v) for k, v in dfl.items()}), key=f"rvc|{cls}")
     fint = S.func(f"{IN}:_integrator")
     chk.touch(fint.name)
+    ci = Ctx(S, fint)
+    prm = fint.params()
     q = [c for c in calls_in(fint.node, "quad")]
-    ok = len(q) == 1 and [n(a_) for a_ in q[0].args[:3]] == ["func", "a", "b"]
+    ok = len(q) == 1 and len(prm) == 3 and all(eqx(kwarg(q[0], nm, i), prm[i]) for i, nm in enumerate(("func", "a", "b")))
     rets = [r for r in own_nodes(fint.node) if isinstance(r, ast.Return)]
-    ok = ok and len(rets) == 1 and n(rets[0].value).replace(" ", "") == "float(res[0])"
+    if ok and len(rets) == 1 and rets[0].value is not None:
+        r = ci.resolve(rets[0].value)
+        ok = isinstance(r, ast.Call) and dotted(r.func) == "float" and len(r.args) == 1 and isinstance(r.args[0], ast.Subscript) \
+            and eqx(r.args[0].slice, "0") and same(r.args[0].value, q[0], ci)
+    else:
+        ok = False
     chk.ob("R20.2", fint.where(), "_integrator returns the value (element 0) of quad(func, a, b)", ok, key="integrator")
     chk.floor("R20.2", 13)
 
 
+def _axis_by_keyword(fi):
+    """copy of a function in which the reduction axis of np.sum is always passed by keyword (np.sum(a, -1) == np.sum(a, axis=-1));
+    the term extractor only records the keyword form"""
+    import copy
+    from ..core import FuncInfo
+
+    class T(ast.NodeTransformer):
+        def visit_Call(self, c):
+            self.generic_visit(c)
+            if dotted(c.func) in ("np.sum", "numpy.sum") and len(c.args) == 2 and not any(k.arg == "axis" for k in c.keywords):
+                c.keywords.append(ast.keyword(arg="axis", value=c.args.pop()))
+            return c
+    node = T().visit(copy.deepcopy(fi.node))
+    ast.fix_missing_locations(node)
+    return FuncInfo(fi.module, fi.qual, node, fi.cls, fi.parent)
+
+
+def _variants(ex, v, cands) -> bool:
+    for w in cands:
+        if v == w:
+            return True
+    for w in cands:
+        try:
+            if sp.simplify(v - w) == 0:
+                return True
+        except Exception:
+            pass
+    return False
+
+
 def r20_3(chk: Check):
     S = chk.src
-    EP = "PotentialTools.effectivePotentialNoResum:EffectivePotentialNoResum"
+    MOD, CLS = "PotentialTools.effectivePotentialNoResum", "EffectivePotentialNoResum"
+    EP = f"{MOD}:{CLS}"
     ft = S.func(f"{EP}.potentialOneLoopThermal")
     chk.touch(ft.name)
-    defs = {}
-    for st in sorted([x for x in own_nodes(ft.node) if isinstance(x, (ast.Assign, ast.AugAssign))], key=lambda s_: s_.lineno):
-        t = st.targets[0] if isinstance(st, ast.Assign) else st.target
-        defs.setdefault(n(t).strip("()"), []).append(st)
-    ok = [n(s_.value) for s_ in defs.get("JbList", [])] == ["self.integrals.Jb(massSqB / temperatureSq)"] and \
-        [n(s_.value) for s_ in defs.get("JfList", [])] == ["self.integrals.Jf(massSqF / temperatureSq)"]
-    chk.ob("R20.3", ft.where(), "bosons go through Jb(m_B^2/T^2) and fermions through Jf(m_F^2/T^2)", ok, key="Jb-Jf-arguments")
-    pot = defs.get("potential", [])
-    seq = [(type(s_).__name__, n(s_.value).replace(" ", "")) for s_ in pot[:3]]
-    ok = len(pot) >= 3 and seq[0] == ("Assign", "np.sum(nB*np.asarray(JbList)[...,0],axis=-1)") and \
-        seq[1] == ("AugAssign", "np.sum(nF*np.asarray(JfList)[...,0],axis=-1)") and isinstance(pot[1].op, ast.Add) and \
-        seq[2][1] in ("potential*temperature**4/(2*np.pi*np.pi)", "potential*temperature**4/(2*np.pi**2)")
-    chk.ob("R20.3", ft.where(), "V_T = T^4/(2 pi^2) [sum_particles n_B Re Jb + sum_particles n_F Re Jf] (real parts = element 0, sum over the particle axis)", ok,
-           str(seq), key="thermal-sum")
-    tsq = defs.get("temperatureSq", [])
-    ok = bool(tsq) and n(tsq[0].value).replace(" ", "") == "temperature**2+self.SMALL_NUMBER"
-    chk.ob("R20.3", ft.where(), "the argument is m^2 / T^2 (regularised by 1e-100 only)", ok, key="argument")
-    unp = {k: [n(s_.value) for s_ in v] for k, v in defs.items() if k.startswith("massSq") and "," in k}
-    ok = unp.get("massSqB, nB, _, _") == ["bosons"] and unp.get("massSqF, nF, _, _") == ["fermions"]
-    chk.ob("R20.3", ft.where(), "masses and multiplicities are elements 0 and 1 of the boson / fermion tuples", ok, str(unp), key="unpack")
+    # term level: the value returned on every path, as a function of the parameters (bosons, fermions, temperature); names of
+    # locals, temporaries, the order of the accumulation and the shape of the control flow do not enter
+    exk = Extractor(S, positive={"temperature"}, keep_regularisers=True)
+    ps = [p for p in exk.paths(_axis_by_keyword(ft)) if p.raised is None]
+    vals = [p.value for p in ps]
+    if not vals or not all(isinstance(v, sp.Basic) for v in vals):
+        raise Undecided("potentialOneLoopThermal: a return value is not a term")
+    env0 = {"__module__": MOD, "__class__": CLS}
+    T = exk.sym("temperature")
+    mB, nB, mF, nF = (exk.sym(s_) for s_ in ("bosons[0]", "bosons[1]", "fermions[0]", "fermions[1]"))
+
+    def term(text, ex_=exk, **bind):
+        return ex_.expr(parse_pattern(text), {**env0, **bind})
+    reg = term("self.SMALL_NUMBER")
+    W = "temperature**4 / (2 * np.pi**2) * (np.sum(nB * np.asarray(self.integrals.Jb(mB / (temperature**2 + self.SMALL_NUMBER)))[..., 0], axis=-1)" \
+        " + np.sum(nF * np.asarray(self.integrals.Jf(mF / (temperature**2 + self.SMALL_NUMBER)))[..., 0], axis=-1))"
+    plain = term(W, mB=mB, nB=nB, mF=mF, nF=nF)
+    absm = term(W, mB=sp.Abs(mB), nB=nB, mF=sp.Abs(mF), nF=nF)
+    cands = [plain, absm, sp.Abs(plain), sp.Abs(absm)]
+    okv = all(_variants(exk, v, cands) for v in vals) and any(_variants(exk, v, [plain]) for v in vals)
+    chk.ob("R20.3", ft.where(), "V_T = T^4/(2 pi^2) [sum_particles n_B Re Jb + sum_particles n_F Re Jf] (real parts = element 0, sum over the particle axis) "
+           "on every returning path (up to the documented |.| options for the imaginary part)", okv, str(vals[0])[:200], key="thermal-sum")
+    # which spectrum goes through which integral, and with which argument
+    JB, JF = sp.Function("integrals.Jb"), sp.Function("integrals.Jf")
+    apps = {JB: set(), JF: set()}
+    for v in vals:
+        for a_ in v.atoms(sp.Function):
+            if a_.func in apps:
+                apps[a_.func].add(a_)
+    okj = bool(apps[JB]) and bool(apps[JF])
+    oka = okj
+    for f_, m_ in ((JB, mB), (JF, mF)):
+        for a_ in apps[f_]:
+            okj = okj and len(a_.args) == 1 and {s_.name for s_ in a_.args[0].free_symbols} <= {m_.name, "temperature"} and m_ in a_.args[0].free_symbols
+            oka = oka and len(a_.args) == 1 and isinstance(reg, sp.Basic) and reg.is_number and 0 < reg <= sp.Rational(1, 10**50) \
+                and any(sp.simplify(a_.args[0] * (T**2 + reg) - mm) == 0 for mm in (m_, sp.Abs(m_)))
+    chk.ob("R20.3", ft.where(), "bosons go through Jb(m_B^2/T^2) and fermions through Jf(m_F^2/T^2)", okj, str(sorted(map(str, apps[JB] | apps[JF])))[:200],
+           key="Jb-Jf-arguments")
+    chk.ob("R20.3", ft.where(), "the argument is m^2 / T^2 (regularised by 1e-100 only)", oka, str(sorted(map(str, apps[JB] | apps[JF])))[:200], key="argument")
+    # masses and multiplicities: elements 0 and 1 of the tuples
+    oku = True
+    shown = set()
+    for v in vals:
+        names = {s_.name for s_ in v.free_symbols if not s_.name.startswith("idx_")}
+        shown |= names
+        oku = oku and names <= {"bosons[0]", "bosons[1]", "fermions[0]", "fermions[1]", "temperature"} and {"bosons[1]", "fermions[1]"} <= names
+        for su in [a_ for a_ in v.atoms(sp.Function) if a_.func == SUM]:
+            inner = su.args[0]
+            hasb, hasf = inner.has(JB), inner.has(JF)
+            oku = oku and (hasb != hasf) and (nB if hasb else nF) in inner.free_symbols and (nF if hasb else nB) not in inner.free_symbols
+    chk.ob("R20.3", ft.where(), "masses and multiplicities are elements 0 and 1 of the boson / fermion tuples", oku, str(sorted(shown)), key="unpack")
     # Coleman-Weinberg
     fj = S.func(f"{EP}.jCW")
     chk.touch(fj.name)
@@ -168,11 +346,19 @@ def r20_3(chk: Check):
     chk.ob("R20.3", fj.where(), "jCW == n m^4 (log(m^2/mu^2) - c)/(64 pi^2)", ok, how, key="jCW", how=how)
     fo = S.func(f"{EP}.potentialOneLoop")
     chk.touch(fo.name)
-    pots = sorted([x for x in own_nodes(fo.node) if isinstance(x, (ast.Assign, ast.AugAssign)) and n(x.targets[0] if isinstance(x, ast.Assign) else x.target) == "potential"],
-                  key=lambda s_: s_.lineno)
-    ok = len(pots) >= 2 and n(pots[0].value).replace(" ", "") == "np.sum(self.jCW(massSqB,nB,cB,rgScaleB),axis=-1)" and isinstance(pots[1], ast.AugAssign) \
-        and isinstance(pots[1].op, ast.Sub) and n(pots[1].value).replace(" ", "") == "np.sum(self.jCW(massSqF,nF,cF,rgScaleF),axis=-1)"
-    chk.ob("R20.3", fo.where(), "zero-temperature one-loop term: bosons enter with +, fermions with - (each with its own c and scale)", ok, key="CW-signs")
+    ex1 = Extractor(S)
+    vals = [p.value for p in ex1.paths(_axis_by_keyword(fo)) if p.raised is None]
+    if not vals or not all(isinstance(v_, sp.Basic) for v_ in vals):
+        raise Undecided("potentialOneLoop: a return value is not a term")
+    b_, f_ = [ex1.sym(f"bosons[{i}]") for i in range(4)], [ex1.sym(f"fermions[{i}]") for i in range(4)]
+    CW = "np.sum(self.jCW(b0, b1, b2, b3), axis=-1) - np.sum(self.jCW(f0, f1, f2, f3), axis=-1)"
+    bind = {f"b{i}": b_[i] for i in range(4)} | {f"f{i}": f_[i] for i in range(4)}
+    plain = term(CW, ex_=ex1, **bind)
+    absm = term(CW, ex_=ex1, **{**bind, "b0": sp.Abs(b_[0]), "f0": sp.Abs(f_[0])})
+    cands = [plain, absm, sp.Abs(plain), sp.Abs(absm)]
+    ok = all(_variants(ex1, v_, cands) for v_ in vals) and any(_variants(ex1, v_, [plain]) for v_ in vals)
+    chk.ob("R20.3", fo.where(), "zero-temperature one-loop term: bosons enter with +, fermions with - (each with its own c and scale)", ok, str(vals[0])[:200],
+           key="CW-signs")
     chk.floor("R20.3", 6)
 
 
@@ -206,9 +392,17 @@ def r20_4(chk: Check):
     fi = S.func("PotentialTools:_initalizeIntegralInterpolations")
     chk.touch(fi.name)
     calls = [c for c in calls_in(fi.node, "readInterpolationTable")]
-    pair = sorted((n(c.func).split(".")[1], n(c.args[0])) for c in calls)
-    ok = len(calls) == 2 and pair[0][0] == "Jb" and "'InterpolationTable_Jb'" in pair[0][1].replace('"', "'") and pair[1][0] == "Jf" \
-        and "'InterpolationTable_Jf'" in pair[1][1].replace('"', "'")
+    cxi = Ctx(S, fi)
+    rprm = [p_ for p_ in S.func("interpolatableFunction:InterpolatableFunction.readInterpolationTable").params() if p_ != "self"]
+    pair = []
+    for c in calls:
+        recv = cxi.resolve(c.func.value) if isinstance(c.func, ast.Attribute) else None
+        arg = kwarg(c, rprm[0], 0) if rprm else None
+        arg = cxi.resolve(arg) if arg is not None else None
+        keys = sorted({x.value for x in ast.walk(arg) if isinstance(x, ast.Constant) and isinstance(x.value, str) and x.value.startswith("InterpolationTable_")}) if arg is not None else []
+        pair.append((recv.attr if isinstance(recv, ast.Attribute) else n(c.func), keys))
+    pair.sort()
+    ok = pair == [("Jb", ["InterpolationTable_Jb"]), ("Jf", ["InterpolationTable_Jf"])]
     chk.ob("R20.4", fi.where(), "the Jb object reads the Jb table and the Jf object the Jf table", ok, str(pair)[:200], key="reader-pairing")
     zero = {"InterpolationTable_Jb": -math.pi**4 / 45, "InterpolationTable_Jf": -7 * math.pi**4 / 360}
     for k, path in files.items():
